@@ -2,7 +2,7 @@
 # Re-run every seeded change against its check (quick tier); prints one line per change.
 cd /verif
 for d in seeded/*/; do
-  id=$(basename $d); prop=$(python3 -c "import json;print(json.load(open('$d/meta.json'))['property'].lower())")
+  id=$(basename $d); prop=$(python3 -c "import json;m=json.load(open('$d/meta.json'));print(m.get('check') or m['property'].lower())")
   out=$(tools/try_mutant.sh $d/patch.diff $prop 2>&1 | tail -2 | tr '\n' ' ')
   echo "$id $(echo $out | grep -o 'violations=[0-9]*') $(echo $out | grep -o 'check exit=[0-9]*')"
 done
